@@ -1009,6 +1009,120 @@ def run_sequence(seed):
 
 
 # --------------------------------------------------------------------------
+# constant images with arbitrary (non-dyadic) constants, every estimator class
+# --------------------------------------------------------------------------
+def gen_constant(seed, k):
+    rng = random.Random(seed)
+    f32 = (k % 3) == 2
+    ny, nx = rng.randint(2, 40), rng.randint(2, 40)
+    box = (rng.randint(2, min(16, ny)), rng.randint(2, min(16, nx)))
+    if rng.random() < 0.3:
+        b = rng.choice([2, 3, 4, 8, 10, 16])
+        ny, nx = b * rng.randint(1, 3), b * rng.randint(1, 3)
+        box = (b, b)
+    kind = rng.choice(['decimal', 'decimal', 'milli', 'pi', 'dyadic', 'big'])
+    cval = {'decimal': lambda: rng.choice([0.1, 0.3, 1.1, 123.456, 1234.1, -0.7, 0.2, 9.99, 1e-7, 5.05e4]),
+            'milli': lambda: 1e-3 * rng.randint(1, 9999),
+            'pi': lambda: math.pi * 10.0 ** rng.randint(-6, 6) * rng.choice([1, -1]),
+            'dyadic': lambda: rng.randint(-64, 64) * 0.25,
+            'big': lambda: 1e6 * rng.randint(1, 50) + rng.choice([0.1, 0.3, 0.5])}[kind]()
+    dt = np.float32 if f32 else np.float64
+    cval = float(dt(cval))
+    mk = rng.choice(['none', 'none', 'random', 'block', 'one'])
+    ck = rng.choice(['none', 'none', 'one', 'band'])
+    return dict(seed=seed, k=k, data=np.full((ny, nx), cval, dtype=dt), cval=cval, ckind=kind, box=box,
+                mask=None if mk == 'none' else _mask(rng, ny, nx, mk), cov=None if ck == 'none' else _mask(rng, ny, nx, ck),
+                p=rng.choice([10, 50, 90, 100]), fsize=rng.choice([(1, 1), (1, 1), (3, 3)]), fthr=None,
+                interp=rng.choice(['zoom', 'zoom', 'idw']), fill=rng.choice([0.0, -1.5, 7.25]),
+                sclip=rng.choice([None, 3.0, 3.0]), rms='StdBackgroundRMS', bkg='MeanBackground')
+
+
+def run_constant(c):
+    """'reproduce a constant image exactly (RMS 0)' for every estimator class and arbitrary constants.
+    Demanded exactly: Median, BiweightLocation, MADStd, BiweightScale always; SExtractor == Mean wherever the box
+    std is 0 (its documented rule), Mode/MMM == 3*median - 2*mean of the Mean run (their definition), Std == 0
+    wherever the box mean is exactly c; a constant mesh gives exactly that constant map.  Where the float mean of n
+    copies of c is not c (legitimate: e.g. 0.1+0.1+0.1), only a rounding-level bound is demanded and the case is
+    counted.  Returns (fails, stats)."""
+    fails, st = [], {}
+    data, cval = c['data'], c['cval']
+    dt = data.dtype.type
+    cov = c['cov'] if c['cov'] is not None else np.zeros(data.shape, bool)
+    cfg = f"c={cval!r}/{data.dtype}/{data.shape}/box={c['box']}/{c['interp']}/filter={c['fsize']}/clip={c['sclip']}"
+    tol = 64 * _ulp(data.dtype) * abs(cval)
+
+    def obs(bkg, rms):
+        return _obs_rel(dict(c, bkg=bkg, rms=rms), data.copy())
+    ref = obs('MeanBackground', 'StdBackgroundRMS')
+    if ref is None:
+        return [], {'all_excluded': 1}
+    ref1 = ref if c['fsize'] == (1, 1) else _obs_rel(dict(c, fsize=(1, 1)), data.copy())
+    mean1, std1, excl = ref1[0], ref1[1], ref1[5]
+    kept = ~excl
+    mean_exact = (mean1 == dt(cval))
+
+    def count(key, n=1):
+        st[key] = st.get(key, 0) + int(n)
+
+    def check_maps(o, name, cls, exact_to):
+        bmesh, bmap = (o[0], o[3]) if name == 'background' else (o[1], o[4])
+        if np.ptp(bmesh) == 0 and not np.all(bmap[~cov] == bmesh.flat[0]):
+            fails.append(('Background2D:constant-image', f'{name}: constant mesh {bmesh.flat[0]!r} but the map is not that constant ({cls}, {cfg})'))
+        if exact_to is not None and not (np.all(bmesh == dt(exact_to)) and np.all(bmap[~cov] == dt(exact_to))):
+            dev = max(float(np.max(np.abs(bmesh.astype(float) - exact_to))),
+                      float(np.max(np.abs(bmap[~cov].astype(float) - exact_to))) if (~cov).any() else 0.0)
+            fails.append(('Background2D:constant-image', f'constant image: {name} is not exactly {exact_to!r} '
+                          f'(max deviation {dev:.3g}) with {cls} ({cfg})'))
+        elif not (_near(bmesh.astype(float), float(exact_to if exact_to is not None else (cval if name == 'background' else 0.0)), tol)
+                  and _near(bmap[~cov].astype(float), float(exact_to if exact_to is not None else (cval if name == 'background' else 0.0)), tol)):
+            fails.append(('Background2D:constant-image', f'constant image: {name} deviates from the constant by more than '
+                          f'{tol:.3g} with {cls} ({cfg})'))
+        if not np.all(bmap[cov] == dt(c['fill'])):
+            fails.append(('Background2D:coverage-fill', f'{name} != fill_value on the coverage mask ({cls}, {cfg})'))
+
+    all_exact = bool(np.all(mean_exact[kept]))
+    count('cases_mean_exact_in_every_box' if all_exact else 'cases_float_mean_of_copies_not_c(legitimate)')
+    # Mean / Std
+    check_maps(ref, 'background', 'MeanBackground', cval if all_exact else None)
+    check_maps(ref, 'background_rms', 'StdBackgroundRMS', 0.0 if all_exact else None)
+    if np.any(std1[kept & mean_exact] != 0):
+        fails.append(('Background2D:constant-image', f'StdBackgroundRMS of a box whose mean is exactly c is not 0 ({cfg})'))
+    # classes that are exact whatever the mean
+    for bkg, rms in (('MedianBackground', 'MADStdBackgroundRMS'), ('BiweightLocationBackground', 'BiweightScaleBackgroundRMS')):
+        o = obs(bkg, rms)
+        if o is None:
+            fails.append(('Background2D:raises', f'all boxes excluded with {bkg} but not with MeanBackground ({cfg})'))
+            continue
+        check_maps(o, 'background', bkg, cval)
+        check_maps(o, 'background_rms', rms, 0.0)
+    # SExtractor (the default estimator): std == 0 -> mean
+    o = _obs_rel(dict(c, bkg='SExtractorBackground', rms='StdBackgroundRMS', fsize=(1, 1)), data.copy())
+    if o is not None:
+        z = kept & (std1 == 0)
+        if not np.array_equal(o[0][z], mean1[z]):
+            i, j = np.argwhere(z & (o[0] != mean1))[0]
+            fails.append(('Background2D:constant-image', f'constant image: SExtractorBackground mesh[{i},{j}] = {o[0][i, j]!r} '
+                          f'but the box has std 0 and mean {mean1[i, j]!r} ({cfg})'))
+        count('sextractor_cells_std_nonzero(legitimate)', int(np.sum(kept & (std1 != 0))))
+        if all_exact and np.all(std1[kept] == 0):
+            check_maps(o, 'background', 'SExtractorBackground', cval)
+    # Mode / MMM: 3 * median - 2 * mean by definition
+    for bkg in ('ModeEstimatorBackground', 'MMMBackground'):
+        o = _obs_rel(dict(c, bkg=bkg, rms='StdBackgroundRMS', fsize=(1, 1)), data.copy())
+        if o is None:
+            continue
+        want = (3.0 * np.full(mean1.shape, cval, dtype=data.dtype)) - (2.0 * mean1)
+        if not np.array_equal(o[0][kept], want[kept]):
+            i, j = np.argwhere(kept & (o[0] != want))[0]
+            fails.append(('Background2D:mesh-value', f'constant image: {bkg} mesh[{i},{j}] = {o[0][i, j]!r} != 3*median - 2*mean '
+                          f'= {want[i, j]!r} ({cfg})'))
+        count(f'{bkg}_not_exactly_c(legitimate: 3c-2c rounds)', int(np.any(o[0][kept] != dt(cval))))
+        if not _near(o[0].astype(float), cval, 4 * tol) or not _near(o[3][~cov].astype(float), cval, 4 * tol):
+            fails.append(('Background2D:constant-image', f'constant image: {bkg} deviates from c by more than {4 * tol:.3g} ({cfg})'))
+    return fails[:4], st
+
+
+# --------------------------------------------------------------------------
 # worker: the same cases with bottleneck disabled
 # --------------------------------------------------------------------------
 def worker_main():
@@ -1249,6 +1363,23 @@ def run(ctx):
             ctx.violation(sig, msg, {'sequence': sd})
     ctx.support('object_sequences_sharing_interpolator_equal_isolated_runs_and_no_aliasing', nseq)
 
+    # ---- constant images with arbitrary constants, every estimator class ----
+    ncon = 150 if quick else 1200
+    for k in range(ncon):
+        sd = ctx.rng.randrange(1 << 40)
+        c = gen_constant(sd, k)
+        try:
+            cf, cst = run_constant(c)
+        except Exception as e:  # noqa: BLE001
+            cf, cst = [('Background2D:raises:' + type(e).__name__, f'Background2D raised {e!r}'[:300])], {}
+        ctx.stat('constants', f"{c['data'].dtype}/{c['ckind']}")
+        for kk, v in cst.items():
+            ctx.stat('constants', kk, v)
+        ctx.count_case({'constant': sd, 'k': k}, True)
+        for sig, msg in cf:
+            ctx.violation(sig, msg, {'constant': sd, 'k': k})
+    ctx.support('constant_image_arbitrary_constants_every_estimator_class', ncon)
+
     # ---- everything again with bottleneck disabled ----
     kseeds = [c['seed'] for c in cases if c['seed'] is not None][: (150 if quick else 1200)]
     rsub = rel_seeds[: (108 if quick else 612)]
@@ -1298,6 +1429,8 @@ def replay(obj):
         fails = run_bigbox(gen_bigbox(r['bigbox'], r['k']))
     elif 'sequence' in r:
         fails = run_sequence(r['sequence'])
+    elif 'constant' in r:
+        fails, _ = run_constant(gen_constant(r['constant'], r['k']))
     elif d.get('relation'):
         c = gen_rel(r['seed'], r.get('combo'))
         if r.get('bottleneck') is False:
